@@ -1,9 +1,214 @@
 import RefurbVerif.Wire.Basic
+import RefurbVerif.Model.Stringify
 open Lean
 
 namespace RefurbVerif.Wire
+open RefurbVerif.Sfy
 
-/-- driver verbs of this group (filled in by the property that owns it) -/
-def handleStringify (_verb : String) (_j : Json) : Option Json := none
+namespace SfyW
+
+/-- text travels as arrays of code points (answers must stay free of line separators, requests of surrogates) -/
+def cps (j : Json) (k : String) : Sfy.Str :=
+  match j.getObjVal? k with
+  | .ok (.arr a) => a.toList.filterMap (fun x => (x.getNat?.toOption).map Char.ofNat)
+  | .ok (.str s) => s.toList
+  | _ => []
+
+def cpJ (l : Sfy.Str) : Json := Json.arr (l.map (fun c => (c.toNat : Json))).toArray
+
+def binOp? : String → Option BinOp
+  | "or" => some .or_ | "and" => some .and_ | "|" => some .bitor | "^" => some .bitxor | "&" => some .bitand
+  | "<<" => some .lshift | ">>" => some .rshift | "+" => some .add | "-" => some .sub | "*" => some .mul
+  | "/" => some .div | "//" => some .floordiv | "%" => some .mod | "@" => some .matmul | "**" => some .pow
+  | _ => none
+
+def cmpOp? : String → Option CmpOp
+  | "==" => some .eq | "!=" => some .ne | "<" => some .lt | "<=" => some .le | ">" => some .gt | ">=" => some .ge
+  | "is" => some .is_ | "is not" => some .isNot | "in" => some .in_ | "not in" => some .notIn
+  | _ => none
+
+def unOp? : String → Option UnOp
+  | "-" => some .neg | "+" => some .pos | "~" => some .inv | "not" => some .not_
+  | _ => none
+
+def argKind? : String → Option ArgKind
+  | "ARG_POS" => some .pos | "ARG_OPT" => some .opt | "ARG_STAR" => some .star | "ARG_NAMED" => some .named
+  | "ARG_STAR2" => some .star2 | "ARG_NAMED_OPT" => some .namedOpt
+  | _ => none
+
+def argKindS : ArgKind → String
+  | .pos => "ARG_POS" | .opt => "ARG_OPT" | .star => "ARG_STAR" | .named => "ARG_NAMED" | .star2 => "ARG_STAR2"
+  | .namedOpt => "ARG_NAMED_OPT"
+
+def intOf (j : Json) (k : String) : Option Int :=
+  match j.getObjVal? k with
+  | .ok (.str s) => s.toInt?
+  | .ok (.num n) => if n.exponent = 0 then some n.mantissa else none
+  | _ => none
+
+/-- JSON → `Node` (`none`: a shape outside the model) -/
+partial def node (j : Json) : Option Node :=
+  let sub (k : String) : Option Node := node (obj j k)
+  let subO (k : String) : Option (Option Node) :=
+    match j.getObjVal? k with
+    | .ok .null | .error _ => some none
+    | .ok v => (node v).map some
+  let items (k : String) : Option (List Node) := (arr j k).mapM node
+  match str j "k" with
+  | "name" => some (.name (cps j "s"))
+  | "member" => do some (.member (← sub "e") (cps j "a"))
+  | "int" => (intOf j "v").map .int
+  | "float" => some (.float (cps j "s"))
+  | "complex" => some (.complex (cps j "s"))
+  | "str" => some (.str (cps j "v"))
+  | "bytes" => some (.bytes (cps j "v"))
+  | "ellipsis" => some .ellipsis
+  | "dict" => do
+    let its ← (arr j "items").mapM (fun kv => match kv with
+      | .arr #[.null, v] => (node v).map (fun v => (none, v))
+      | .arr #[k, v] => do some (some (← node k), ← node v)
+      | _ => none)
+    some (.dict its)
+  | "tuple" => (items "items").map .tuple
+  | "list" => (items "items").map .list
+  | "set" => (items "items").map .set
+  | "call" => do
+    let args ← (arr j "args").mapM (fun a => match a with
+      | .arr #[.str k, nm, v] => do
+        let nm' : Sfy.Str := match nm with
+          | .str s => s.toList
+          | .arr a => a.toList.filterMap (fun x => (x.getNat?.toOption).map Char.ofNat)
+          | _ => "None".toList
+        some (← argKind? k, nm', ← node v)
+      | _ => none)
+    some (.call (← sub "f") args)
+  | "index" => do some (.index (← sub "b") (← sub "i"))
+  | "slice" => do some (.slice (← subO "b") (← subO "e") (← subO "s"))
+  | "op" => do some (.op (← binOp? (str j "o")) (← sub "l") (← sub "r"))
+  | "cmp" => do
+    let rest ← (arr j "rest").mapM (fun a => match a with
+      | .arr #[.str o, v] => do some (← cmpOp? o, ← node v)
+      | _ => none)
+    some (.cmp (← sub "first") rest)
+  | "unary" => do some (.unary (← unOp? (str j "o")) (← sub "e"))
+  | "lambda" => do
+    let ps ← (arr j "params").mapM (fun a => match a with
+      | .arr #[nm, .str k] => do
+        let nm' : Sfy.Str := match nm with
+          | .str s => s.toList
+          | _ => []
+        some (nm', ← argKind? k)
+      | _ => none)
+    some (.lambda ps (← subO "body"))
+  | "cond" => do some (.cond (← sub "t") (← sub "c") (← sub "e"))
+  | "await" => do some (.await (← sub "e"))
+  | "walrus" => do some (.walrus (← sub "l") (← sub "r"))
+  | "star" => do some (.star (← sub "e"))
+  | "fstr" => (items "parts").map .fstr
+  | "ffield" => do
+    let conv : Option Char := match (str j "conv").toList with
+      | [c] => some c
+      | _ => none
+    some (.ffield (← sub "e") conv (cps j "spec"))
+  | "other" => some (.other (nat j "i"))
+  | _ => none
+
+partial def stmt (j : Json) : Option Stmt :=
+  match str j "k" with
+  | "assign" => do some (.assign (← (arr j "lvalues").mapM node) (← node (obj j "r")))
+  | "if" => do
+    let bodies ← (arr j "bodies").mapM (fun b => match b with
+      | .arr a => a.toList.mapM stmt
+      | _ => none)
+    some (.ifS (← (arr j "conds").mapM node) bodies (bool j "else"))
+  | "for" => do
+    some (.forS (← node (obj j "idx")) (← node (obj j "e")) (← (arr j "body").mapM stmt) (bool j "else") (bool j "async"))
+  | "del" => do some (.del (← node (obj j "e")))
+  | "expr" => do some (.expr (← node (obj j "e")))
+  | "otherstmt" => some .other
+  | _ => none
+
+def kv (k : String) (fields : List (String × Json)) : Json := Json.mkObj (("k", (k : Json)) :: fields)
+
+/-- `Node` → JSON (same shape as `node` reads) -/
+partial def nodeJ : Node → Json
+  | .name s => kv "name" [("s", cpJ s)]
+  | .member e a => kv "member" [("e", nodeJ e), ("a", cpJ a)]
+  | .int v => kv "int" [("v", (toString v : Json))]
+  | .float s => kv "float" [("s", cpJ s)]
+  | .complex s => kv "complex" [("s", cpJ s)]
+  | .str v => kv "str" [("v", cpJ v)]
+  | .bytes v => kv "bytes" [("v", cpJ v)]
+  | .ellipsis => kv "ellipsis" []
+  | .dict items => kv "dict" [("items", Json.arr (items.map (fun (k, v) => Json.arr #[optJ nodeJ k, nodeJ v])).toArray)]
+  | .tuple items => kv "tuple" [("items", Json.arr (items.map nodeJ).toArray)]
+  | .list items => kv "list" [("items", Json.arr (items.map nodeJ).toArray)]
+  | .set items => kv "set" [("items", Json.arr (items.map nodeJ).toArray)]
+  | .call f args => kv "call" [("f", nodeJ f),
+      ("args", Json.arr (args.map (fun (k, nm, a) => Json.arr #[(argKindS k : Json), cpJ nm, nodeJ a])).toArray)]
+  | .index b i => kv "index" [("b", nodeJ b), ("i", nodeJ i)]
+  | .slice b e s => kv "slice" [("b", optJ nodeJ b), ("e", optJ nodeJ e), ("s", optJ nodeJ s)]
+  | .op o l r => kv "op" [("o", (o.text : Json)), ("l", nodeJ l), ("r", nodeJ r)]
+  | .cmp f rest => kv "cmp" [("first", nodeJ f),
+      ("rest", Json.arr (rest.map (fun (o, e) => Json.arr #[(o.text : Json), nodeJ e])).toArray)]
+  | .unary o e => kv "unary" [("o", (o.text : Json)), ("e", nodeJ e)]
+  | .lambda ps b => kv "lambda" [
+      ("params", Json.arr (ps.map (fun (nm, k) => Json.arr #[(String.ofList nm : Json), (argKindS k : Json)])).toArray),
+      ("body", optJ nodeJ b)]
+  | .cond t c e => kv "cond" [("t", nodeJ t), ("c", nodeJ c), ("e", nodeJ e)]
+  | .await e => kv "await" [("e", nodeJ e)]
+  | .walrus l r => kv "walrus" [("l", nodeJ l), ("r", nodeJ r)]
+  | .star e => kv "star" [("e", nodeJ e)]
+  | .fstr parts => kv "fstr" [("parts", Json.arr (parts.map nodeJ).toArray)]
+  | .ffield e conv spec => kv "ffield" [("e", nodeJ e),
+      ("conv", match conv with | some c => (String.ofList [c] : Json) | none => Json.null), ("spec", cpJ spec)]
+  | .other i => kv "other" [("i", (i : Json))]
+
+def toksJ (t : Toks) : Json := cpJ (render t)
+
+end SfyW
+
+open SfyW in
+/-- driver verbs of C02 -/
+def handleStringify (verb : String) (j : Json) : Option Json :=
+  match verb with
+  | "sfy" =>
+    -- `_stringify(n)` (null = ValueError) and `stringify(n)`
+    some (match node (obj j "n") with
+      | none => Json.mkObj [("unmodelled", true)]
+      | some n => Json.mkObj [("r", optJ toksJ (sfy n)), ("x", toksJ (stringify n))])
+  | "sfy_stmt" =>
+    some (match stmt (obj j "n") with
+      | none => Json.mkObj [("unmodelled", true)]
+      | some n => Json.mkObj [("r", optJ toksJ (sfyStmt n))])
+  | "slice_call" =>
+    some (match node (obj j "n") with
+      | some (.slice b e s) => Json.mkObj [("r", toksJ (sliceCall b e s))]
+      | _ => Json.mkObj [("unmodelled", true)])
+  | "ppref" =>
+    -- a tree as the user wrote it: reference text, what mypy makes of it, what `stringify` prints for that
+    some (match node (obj j "n") with
+      | none => Json.mkObj [("unmodelled", true)]
+      | some n => Json.mkObj [("wf", wf n), ("safe", safe n && decide (1 ≤ n.prec)), ("ppref", toksJ (ppRef n)),
+          ("desugar", nodeJ (desugar n)), ("sfy", optJ toksJ (sfy (desugar n))), ("x", toksJ (stringify (desugar n)))])
+  | "templates" =>
+    -- the committed table: shape, text with `{i}` holes, demands of the holes
+    some (Json.arr (templates.map (fun t => Json.mkObj [("check", t.check), ("role", t.role), ("shape", nodeJ t.shape),
+      ("text", toksJ (ppRef t.shape)),
+      ("reqs", Json.arr ((reqs 1 false false t.shape).map (fun r => Json.mkObj [("hole", r.hole), ("level", r.level),
+        ("notInt", r.notInt), ("noBrace", r.noBrace)])).toArray)])).toArray)
+  | "template_fill" =>
+    -- what a check prints for template number `id` when the operands are `sigma` (each through `stringify`), and
+    -- whether every operand meets the demand of its hole (then the text is faithful: `template_faithful`)
+    some (match templates[nat j "id"]?, (arr j "sigma").mapM node with
+      | some t, some sg =>
+        let σ : Nat → Node := fun i => sg.getD i dummy
+        let f : Nat → Toks := fun i => stringify (desugar (σ i))
+        Json.mkObj [("text", toksJ (fillT f (wrap 1 t.shape.prec (pr t.shape)))),
+          ("meets", (reqs 1 false false t.shape).all (fun r => meetsB r (σ r.hole))),
+          ("printable", (reqs 1 false false t.shape).all (fun r => (sfy (desugar (σ r.hole))).isSome)),
+          ("whole_wf", wf (fillN σ t.shape))]
+      | _, _ => Json.mkObj [("unmodelled", true)])
+  | _ => none
 
 end RefurbVerif.Wire
